@@ -27,6 +27,10 @@ for seed in range(int(sys.argv[1])):
         if rc!=mc: d.append('raise')
         if r['handler']!=m['handler']: d.append('handler')
         if d:
+            alt=run_model(tmpl,plan,hc,guard_tags=False)
+            if alt['out']==r['out'] and alt['history']==r['history']:
+                kinds['known:F12']+=1
+                continue
             kinds['+'.join(d)]+=1
             if shown<int(sys.argv[2]):
                 shown+=1
